@@ -16,6 +16,7 @@ import numpy as np
 from vmon import core, gen, contracts
 from vmon import refmodel as rm
 
+ANCHORS = ['evo/core/sync.py', 'evo/core/trajectory.py', 'evo/core/metrics.py', 'evo/core/result.py', 'evo/tools/file_interface.py', 'evo/tools/pandas_bridge.py']
 LEVEL = "exploration"
 SHARDS = {"quick": 8, "thorough": 16}
 RULE = ("(a) each listed function called on freshly generated valid arguments in both storage "
